@@ -45,7 +45,7 @@ Theorem unmap_stops : forall n a (c : bool) im s,
   let kill := if c then im_co im else im_fi im in
   kill <> -1 ->
   forall n' out, nrt_unmap n a c = Some (n', out) ->
-  exists s', out = [RBind s'] /\ nstorage n' = Some s' /\
+  exists s', out = [RBind s' (-1)] /\ nstorage n' = Some s' /\
     find_map kill (mapping s') = None /\
     (forall v, store_handleCC s' kill v = Some (s', None)) /\
     (forall id', id' <> kill -> find_map id' (mapping s') = find_map id' (mapping s)) /\
@@ -120,7 +120,7 @@ Theorem learn_new_address : forall ports n id a c q p,
                inv_map := inv_set a (if c then (loc, id, -1, {| bmin := pmin p; bmax := pmax p |})
                                      else (loc, -1, id, {| bmin := pmin p; bmax := pmax p |}))
                             (inv_set a (loc, -1, -1, {| bmin := pmin p; bmax := pmax p |}) (inv_map n));
-               learnQ := q |}, [RBind s']) /\
+               learnQ := q |}, [RBind s' id]) /\
     find_map id (mapping s') = Some (id, c, loc) /\
     nthZ (callbacks s') loc = Some (mk_cb p a) /\
     (forall id', id' <> id -> find_map id' (mapping s') = find_map id' (omap (nstorage n))) /\
@@ -164,11 +164,11 @@ Qed.
 (* the realtime side's mapping after a midi-bind is the snapshot's: with the
    two theorems above, what a learn / unMap did to the snapshot is what the
    realtime side does from the delivery on *)
-Theorem bind_installs : forall r ns r', rt_deliver r (RBind ns) = Some r' ->
+Theorem bind_installs : forall r ns ans r', rt_deliver r (RBind ns ans) = Some r' ->
   exists s', rstorage r' = Some s' /\ mapping s' = mapping ns /\ callbacks s' = callbacks ns.
 Proof.
-  intros r ns r' H. cbn [rt_deliver] in H.
-  destruct (pq_pop (pending r)); [| discriminate].
+  intros r ns ans r' H. cbn [rt_deliver] in H.
+  destruct (if ans =? -1 then Some (pending r) else pq_pop (pending r)); [| discriminate].
   destruct (rstorage r) as [old |].
   - destruct (cloneValues ns old) as [ns' |] eqn:C; [| discriminate].
     inversion H; subst. exists ns'. cbn [rstorage]. unfold cloneValues in C.
